@@ -85,7 +85,8 @@ class Sc:
     """one run of the grid"""
 
     def __init__(self, name, cmd, argv, kind="both", pre=(), effect="none", row=None, fail=None, site=None, git=False,
-                 mutate=None, tier="quick", cls="ok", tty=False):
+                 mutate=None, tier="quick", cls="ok", tty=False, lock=False):
+        self.lock = lock              # another process holds .renamify/renamify.lock while the command runs
         self.tty = tty                # stdin and stdout are a terminal (answer `y`): outside the model's rows
         self.name, self.cmd, self.argv, self.kind, self.pre = name, cmd, list(argv), kind, list(pre)
         self.effect = effect          # none | plan_written | renamed | replaced | restored | impossible
@@ -155,17 +156,15 @@ def scenarios(thorough):
                     cls="nonexistent-path"))
     S.append(Sc("replace/nonexistent-path", "replace", ["replace", TERM, REPL, "no_such_dir", "--no-regex", "-y"] + J + NA, effect="impossible",
                 fail="create_simple_plan", site="err_arm", row={"yes": True, "noregex": True}, cls="nonexistent-path"))
-    # a planned path that is not valid UTF-8: the `plan` member is rendered through to_value(..).unwrap_or(Null)
-    U = {"serfails": True}
-    S.append(Sc("search/nonutf8", "search", ["search", TERM] + J + NA, kind="nonutf8", effect="none", row=dict(U), cls="non-utf8-path"))
-    S.append(Sc("plan/nonutf8+dry", "plan", ["plan", TERM, REPL, "--dry-run"] + J + NA, kind="nonutf8", effect="none", row=dict(U, dry=True),
-                cls="non-utf8-path"))
-    S.append(Sc("rename/nonutf8+dry", "rename", ["rename", TERM, REPL, "-y", "--dry-run"] + J + NA, kind="nonutf8", effect="none",
-                row=dict(U, dry=True, yes=True), cls="non-utf8-path"))
-    S.append(Sc("plan/nonutf8", "plan", ["plan", TERM, REPL] + J + NA, kind="nonutf8", effect="impossible", fail="plan_operation", site="err_arm",
-                row=dict(U), cls="non-utf8-path"))
-    S.append(Sc("replace/nonutf8", "replace", ["replace", TERM, REPL, "--no-regex", "-y"] + J + NA, kind="nonutf8", effect="impossible",
-                fail="create_simple_plan", site="err_arm", row=dict(U, yes=True, noregex=True), cls="non-utf8-path"))
+    # a matched / renamed path that is not valid UTF-8: refused by the planner up front since 56d4ab2 (before that the
+    # dry-run commands printed `"plan": null` with status 0 — classified non_utf8_plan_null, unlisted, if it ever comes back)
+    for cmd, argv, fail, row in (("search", ["search", TERM], "plan_operation", {}),
+                                 ("plan", ["plan", TERM, REPL, "--dry-run"], "plan_operation", {"dry": True}),
+                                 ("plan", ["plan", TERM, REPL], "plan_operation", {}),
+                                 ("rename", ["rename", TERM, REPL, "-y", "--dry-run"], "rename_operation", {"dry": True, "yes": True}),
+                                 ("replace", ["replace", TERM, REPL, "--no-regex", "-y"], "create_simple_plan", {"yes": True, "noregex": True})):
+        S.append(Sc(f"{cmd}/nonutf8" + ("+dry" if row.get("dry") else ""), cmd, argv + J + NA, kind="nonutf8", effect="impossible", fail=fail,
+                    site="err_arm", row=row, cls="non-utf8-path"))
     S.append(Sc("replace/empty-pattern", "replace", ["replace", "", "x", "--no-regex", "-y"] + J + NA, effect="impossible",
                 fail="create_simple_plan", site="err_arm", row={"yes": True, "noregex": True}, cls="invalid-pattern"))
     # apply / undo / redo / history / status after real operations
@@ -212,6 +211,18 @@ def scenarios(thorough):
                 mutate="stale_same_length", cls="stale-plan"))
     S.append(Sc("apply/stale-plan-truncated", "apply", ["apply"] + J + NA, pre=plan_pre, effect="renamed", fail="apply_operation", site=E,
                 mutate="stale_truncated", cls="stale-plan"))        # a panic until 29e3f64 (then: an ordinary error)
+    # the workspace lock is held by another process (`renamify test-lock`): every locking command refuses
+    L = dict(lock=True, cls="lock-held", site=E, effect="impossible")
+    S.append(Sc("plan/lock-held", "plan", ["plan", TERM, REPL] + J + NA, fail="plan_operation", **L))
+    S.append(Sc("rename/lock-held", "rename", ["rename", TERM, REPL, "-y"] + J + NA, fail="rename_operation", row={"yes": True}, **L))
+    S.append(Sc("replace/lock-held", "replace", ["replace", TERM, REPL, "--no-regex", "-y"] + J + NA, fail="renamify_core::LockFile::acquire",
+                row={"yes": True, "noregex": True}, **L))
+    S.append(Sc("apply/lock-held", "apply", ["apply"] + J + NA, pre=plan_pre, fail="apply_operation", **L))
+    S.append(Sc("undo/lock-held", "undo", ["undo", "latest"] + J, pre=ren_pre, fail="undo_operation", **L))
+    S.append(Sc("redo/lock-held", "redo", ["redo", "latest"] + J, pre=ren_pre + [["undo", "latest", "--quiet"]], fail="redo_operation", **L))
+    S.append(Sc("replace/lock-held+dry", "replace", ["replace", TERM, REPL, "--no-regex", "-y", "--dry-run"] + J + NA, effect="none",
+                row={"yes": True, "noregex": True, "dry": True}, lock=True, cls="lock-held"))
+    S.append(Sc("search/lock-held", "search", ["search", TERM] + J + NA, effect="none", lock=True, cls="lock-held"))
     # stdout on a terminal: the only situation in which the prompt of rename_operation is reachable under --output json
     S.append(Sc("rename/tty-no-yes", "rename", ["rename", TERM, REPL] + J + NA, effect="renamed", tty=True, cls="terminal"))
     S.append(Sc("rename/tty-yes (control)", "rename", ["rename", TERM, REPL, "-y"] + J + NA, effect="renamed", tty=True, row={"yes": True},
@@ -406,6 +417,26 @@ def cli_tty(args, cwd, answer=b"y\n", timeout=60):
     return rc, out, err
 
 
+def hold_lock(root):
+    """start `renamify test-lock` in root and wait until it holds the workspace lock -> Popen | None"""
+    import time
+    e = dict(common.BASE_ENV)
+    e["HOME"] = root
+    e["XDG_CONFIG_HOME"] = os.path.join(root, ".xdg-none")
+    p = subprocess.Popen([common.CLI_BIN, "test-lock", "--delay", "60000"], cwd=root, env=e, stdin=subprocess.DEVNULL,
+                         stdout=subprocess.DEVNULL, stderr=subprocess.DEVNULL)
+    lock = os.path.join(root, ".renamify", "renamify.lock")
+    t0 = time.time()
+    while time.time() - t0 < 10:
+        if os.path.exists(lock):
+            return p
+        if p.poll() is not None:
+            return None
+        time.sleep(0.02)
+    p.kill()
+    return None
+
+
 def execute(sc):
     """run one scenario in a fresh scratch tree -> observation dict"""
     with common.scratch("renamify-verif.c19.") as root:
@@ -421,6 +452,9 @@ def execute(sc):
                 return {"setup_failed": {"argv": pre, "rc": rc, "stderr": err.decode("utf-8", "replace")[:300]}}
         if sc.mutate:
             mutate(root, sc.mutate)
+        holder = hold_lock(root) if sc.lock else None
+        if sc.lock and holder is None:
+            return {"setup_failed": {"argv": ["test-lock"], "rc": -1, "stderr": "the lock holder did not acquire the lock"}}
         before = snap(root)
         h0 = history_len(root)
         plan_file = os.path.join(root, ".renamify", "plan.json")
@@ -432,6 +466,12 @@ def execute(sc):
                 return {"skipped": f"pty unavailable: {ex}"}
         else:
             rc, out, err = common.cli(sc.argv, root)
+        if holder is not None:
+            holder.terminate()
+            try:
+                holder.wait(timeout=10)
+            except subprocess.TimeoutExpired:
+                holder.kill()
         after = snap(root)
         h1 = history_len(root)
         text = out.decode("utf-8", "replace")
@@ -724,7 +764,7 @@ def run(ctx):
     ctx.cov["exhaustive"] = True
     ctx.cov["rule"] = ("CLI grid, every cell run once in a fresh scratch tree: commands {plan, search, rename, replace, apply, undo, redo, history, "
                        "status, version} x scenario class {matches+renames, matches only, renames only, none, nonexistent path, unknown id, missing/"
-                       "corrupt plan file, invalid regex, empty literal pattern, a planned path that is not valid UTF-8, rename conflict, stale plan (same length / truncated), no confirmation, invalid flag "
+                       "corrupt plan file, invalid regex, empty literal pattern, a matched path that is not valid UTF-8, the workspace lock held by another process, rename conflict, stale plan (same length / truncated), no confirmation, invalid flag "
                        "value (clap), bad -C / --auto-init (exits before dispatch), first run in/outside a git repository with/without -y, "
                        "--no-auto-init, --auto-init repo, rename on a pseudo-terminal with / without -y} x {--quiet, --dry-run where accepted}; "
                        "thorough additionally x every --preview value. "
